@@ -1,6 +1,7 @@
 import Prism.Proofs.C05
 import Prism.Proofs.C05Chunks
 import Prism.Proofs.C06Stream
+import Prism.Proofs.C06Webp
 
 #print axioms Prism.C05_png
 #print axioms Prism.C05_jpeg
@@ -13,3 +14,4 @@ import Prism.Proofs.C06Stream
 #print axioms Prism.Png.C05_png_any_ancillary_pure
 #print axioms Prism.Jpeg.C05_jpeg_any_segments
 #print axioms Prism.Jpeg.C05_jpeg_any_segments_pure
+#print axioms Prism.Webp.C05_webp_vp8x_any_flags
